@@ -17,4 +17,6 @@ pub mod proj;
 pub mod reader;
 pub mod runner;
 pub mod runner2;
+pub mod runner3;
+pub mod runner4;
 pub mod unproj;
